@@ -22,6 +22,47 @@ ASSUMPTIONS = ['scipy.stats.uniform.ppf(q, loc, scale) = q*scale + loc for 0 <= 
                'degenerate bounds (low == high), std <= 0, u outside [0,1], non-finite arguments and overflowing widths are '
                'outside the quantifier (malformed stream, recorded, not judged)']
 
+# source tie (harness/translate.py -> lean/TaurexModel/Gen/SrcC08.lean, tied to TaurexModel/Priors.lean in
+# lean/Props/C08Src.lean).  scipy's ppf functions are externals (function parameters of the translation).
+_PR = 'taurex/core/priors.py'
+_MODE = {'self._prior_mode': ('priorMode', {'PriorMode.LINEAR': 0, 'PriorMode.LOG': 1})}
+_UATTRS = {'self._low_bounds': ('low_bounds', 's'), 'self._up_bounds': ('up_bounds', 's'), 'self._scale': ('scale', 's')}
+_GATTRS = {'self._loc': ('loc', 's'), 'self._scale': ('scale', 's')}
+_MATTR = {'self._prior_mode': ('priorMode', 'nat')}
+_USTATE = ['self._prior_mode', 'self._low_bounds', 'self._up_bounds', 'self._scale']
+_GSTATE = ['self._prior_mode', 'self._loc', 'self._scale']
+SRC_SPECS = [
+    dict(module=_PR, cls='Prior', func='prior', lean='Prior_prior', params=dict(value='s'),
+         attrs={'self._prior_mode': ('priorMode', 'nat')}, enums=_MODE),
+    dict(module=_PR, cls='Uniform', func='set_bounds', lean='Uniform_set_bounds', callname='self.set_bounds', dialect='obj',
+         params=dict(bounds='pair'), attrs=_UATTRS, state=['self._low_bounds', 'self._up_bounds', 'self._scale']),
+    dict(module=_PR, cls='Uniform', func='sample', lean='Uniform_sample', callname='Uniform.sample',
+         params=dict(x='s'), attrs=_UATTRS, externals={'stats.uniform.ppf': ('uniform_ppf', 3, ('loc', 'scale'))}),
+    dict(module=_PR, cls='Uniform', func='boundaries', lean='Uniform_boundaries', callname='Uniform.boundaries',
+         params={}, attrs=_UATTRS, returns='pair'),
+    dict(module=_PR, cls='Gaussian', func='sample', lean='Gaussian_sample', callname='self.sample',
+         params=dict(x='s'), attrs=_GATTRS, externals={'stats.norm.ppf': ('norm_ppf', 3, ('loc', 'scale'))}),
+    dict(module=_PR, cls='Gaussian', func='boundaries', lean='Gaussian_boundaries', callname='Gaussian.boundaries',
+         params={}, attrs=_GATTRS, returns='pair'),
+    # the constructors (dialect 'obj': calls of translated methods, optional arguments).  `calls` says what the MRO resolves
+    # `super().__init__` to; Logger.__init__ (called by Prior.__init__ with the class name) only sets up logging
+    dict(module=_PR, cls='Prior', func='__init__', lean='Prior_init', callname='Prior.__init__', dialect='obj', params={},
+         attrs=_MATTR, enums=_MODE, state=['self._prior_mode'],
+         ignore_calls=r'^super\(\)\.__init__\(self\.__class__\.__name__\)$'),
+    dict(module=_PR, cls='Uniform', func='__init__', lean='Uniform_init', callname='Uniform.__init__', dialect='obj',
+         params=dict(bounds='pair'), attrs=dict(_UATTRS, **_MATTR), enums=_MODE, state=_USTATE,
+         calls={'super().__init__': 'Prior.__init__'}, raise_value='(priorMode, low_bounds, up_bounds, scale)'),
+    dict(module=_PR, cls='LogUniform', func='__init__', lean='LogUniform_init', callname='LogUniform.__init__', dialect='obj',
+         params=dict(bounds='pair', lin_bounds='optpair'), attrs=dict(_UATTRS, **_MATTR), enums=_MODE, state=_USTATE,
+         calls={'super().__init__': 'Uniform.__init__'}),
+    dict(module=_PR, cls='Gaussian', func='__init__', lean='Gaussian_init', callname='Gaussian.__init__', dialect='obj',
+         params=dict(mean='s', std='s'), attrs=dict(_GATTRS, **_MATTR), enums=_MODE, state=_GSTATE,
+         calls={'super().__init__': 'Prior.__init__'}),
+    dict(module=_PR, cls='LogGaussian', func='__init__', lean='LogGaussian_init', callname='LogGaussian.__init__',
+         dialect='obj', params=dict(mean='s', std='s', lin_mean='opt', lin_std='opt'), attrs=dict(_GATTRS, **_MATTR),
+         enums=_MODE, state=_GSTATE, calls={'super().__init__': 'Gaussian.__init__'}),
+]
+
 KINDS = ['Uniform', 'LogUniform', 'Gaussian', 'LogGaussian']
 U_FIXED = [0.0, 1.0, 0.5, 0.1, 0.9, 1e-12, 1 - 1e-12, 0.25, 0.75]
 
@@ -272,6 +313,22 @@ def eval_ctor(ctx, case):
         if (q['lo'], q['hi'], q['samples']) != (impl['lo'], impl['hi'], impl['samples']):
             ctx.violation('uniform-order:' + k, 'reversing the bounds changes the prior', small,
                           dict(fwd=[impl['lo'], impl['hi']], rev=[q['lo'], q['hi']]))
+        # history: an object whose bounds are replaced through the public set_bounds is the prior of the NEW bounds
+        # (sample, boundaries and params all follow), i.e. equal to a freshly built prior
+        b2 = [lo - 0.75 * (abs(lo) + 1.0), hi + 0.5 * (abs(hi) + 2.0)]
+        if ctor['b'][0] > ctor['b'][1]:
+            b2 = b2[::-1]
+        p2 = build_ctor(ctor)
+        p2.set_bounds(b2)
+        q2 = observe(p2, us, xs)
+        qf = observe(build_ctor(dict(k='loguniform' if is_log else 'uniform', b=b2)), us, xs)
+        ctx.bucket('history:set_bounds')
+        if (q2['lo'], q2['hi'], q2['samples'], q2['mode']) != (qf['lo'], qf['hi'], qf['samples'], qf['mode']) \
+                or p2.params() != type(p2)(bounds=b2).params():
+            ctx.violation('set-bounds-stale:' + kindname, 'after set_bounds(new) the prior is not the prior of the new bounds '
+                          '(sample / boundaries / params disagree with a freshly built one)', small,
+                          dict(new_bounds=b2, used=[q2['lo'], q2['hi'], q2['samples'][:4]],
+                               fresh=[qf['lo'], qf['hi'], qf['samples'][:4]]))
         if k in ('loguniform_lin',):
             q = observe(build_ctor(dict(k='loguniform', b=[math.log10(v) for v in ctor['b']])), us, xs)
             if not (C.close([q['lo'], q['hi']], [impl['lo'], impl['hi']], rel=1e-15)
